@@ -173,6 +173,10 @@ func main() {
 		if err == nil {
 			err = corr.CancelledThenMore(d, res, *seed)
 		}
+		if err == nil {
+			// a call whose request cannot be written must still return
+			err = c14.BadRawParams(res, *seed)
+		}
 	case "C03":
 		res.Rule = "fault kinds {FIN, RST, blackhole} x positions {before, inside header, mid-payload, before last byte, after} x directions x frame of a workload (calls, a notification, a retry-tagged call) x calls issued right after the strike / in the reconnect window / after recovery (x second fault, thorough); oracle: a call is lost iff it has not returned although a later probe round-tripped or the client was closed; the client endpoint's hook trace is replayed through Jrpc.Corr; distinct = (fault, position, direction, frame, timing)"
 		err = corr.FaultGrid(d, res, *seed, thorough, "C03")
@@ -239,6 +243,9 @@ func main() {
 	case "C14":
 		res.Rule = "rounds of a mixed workload on one connection (requests and responses of 1 B..300 kB, notifications, cancels, streams, reverse calls, pings every 2-3 ms on both ends, a reconnect in odd rounds) with seed-driven delays inside every hooked section; per round: every connection's write-lock trace replayed through the model, every wire frame checked; distinct = round (seed); every round is non-trivial"
 		err = c14.Run(d, res, *seed, thorough)
+		if err == nil {
+			err = c14.BadRawParams(res, *seed)
+		}
 	case "C16":
 		res.Rule = "populations of 1,2,3,5 simultaneously connected clients x concurrent forward calls each making sequential or parallel reverse calls (plain, method-tagged through a client-side alias, nested forward call inside the reverse handler, failing handler, missing method): every reverse result must carry the identity of the client being served; loss of the calling client's connection (FIN, RST, client close) before the reverse call, during it, inside the reverse request frame and inside the reverse response frame, with the handler's or a background context: the reverse call and a later one must return an error within 2 s, never another client's answer, survivors unaffected; no reverse client over HTTP or without the server option; every endpoint's trace is replayed through Jrpc.Corr; distinct = scenario parameters"
 		err = c16.Run(d, res, *seed, thorough)
